@@ -5,7 +5,7 @@
 
 package daemon
 
-//@ for C19
+//@ for C19 C06
 
 //@ # Pool sizing with the default capacity ratio (ratio 1, shift 0).
 //@ func getPoolConfig
